@@ -1,6 +1,9 @@
 // mode "actor": drives ONE real target actor (launch_target_actor: real channels, real /bin/sh scripts gated on a FIFO)
 // with an event sequence and prints what it emitted after each event.
-//   case line:  A <id> <B|S|G> <deps: - | n,n,...> <spawn_ok 0|1> <event>@<nout>,<nstart> ...
+//   case line:  A <id> <B|S|G> <deps: - | n,n,...> <spawn_ok 0|1|2> <event>@<nout>,<nstart> ...
+//               spawn_ok = 2 (build actors): SKIP MODE — the build declares an input whose state was recorded by a previous
+//               successful run of the real incremental layer and never changes: every execution the actor starts ends
+//               `Skipped (Not Modified)` by itself, without running the script (no BD events in such a case)
 //   events:     Rq:<B|S>:<R|n>  Un:<B|S>:<R|n>  Ok:<B|S>:<n>:<0|1>  Iv:<B|S>:<n>  IN  TM  BD:<C|F>
 //   <nout>,<nstart> are waiting hints computed from the model (how many outputs / cumulative script starts to wait
 //   for before synchronising); they never decide a verdict: everything observed is printed and compared afterwards.
@@ -10,7 +13,7 @@
 //   before it; aggregates (no stateless reply) are synchronised on the emptiness of their input channel.
 use super::super::util::*;
 use crate::domain::{
-    AggregateTarget, BuildTarget, Resources, ServiceTarget, Target, TargetId, TargetMetadata,
+    AggregateTarget, BuildTarget, FilesResource, Resources, ServiceTarget, Target, TargetId, TargetMetadata,
 };
 use crate::engine::verif_access::{
     launch_target_actor, ActorId, ActorInputMessage, ExecutionKind, TargetActorOutputMessage,
@@ -181,7 +184,8 @@ fn run_case(line: &str, scratch: &std::path::Path) -> String {
     } else {
         f[3].split(',').map(|d| tid(d.parse().unwrap())).collect()
     };
-    let spawn_ok = f[4] == "1";
+    let skip_mode = f[4] == "2";
+    let spawn_ok = f[4] == "1" || skip_mode;
     let events: Vec<&str> = f[5..].to_vec();
 
     let dir = scratch.join(format!("case_{}", id));
@@ -207,6 +211,27 @@ fn run_case(line: &str, scratch: &std::path::Path) -> String {
         project_dir,
         dependencies: deps,
     };
+    let build_input = if skip_mode {
+        let inp = dir.join("in.txt");
+        std::fs::write(&inp, "declared input\n").unwrap();
+        let input = Resources {
+            files: vec![FilesResource {
+                paths: vec![inp.into()],
+                extensions: None,
+            }],
+            cmds: vec![],
+        };
+        // record the state of that input as a successful previous invocation would have
+        let _ = task::block_on(crate::engine::incremental::run(
+            &metadata,
+            &input,
+            Some(&Resources::new()),
+            async { Ok(crate::engine::verif_access::BuildTerminationReport::Completed) },
+        ));
+        input
+    } else {
+        Resources::new()
+    };
     let target = match kind {
         "B" => Target::Build(BuildTarget {
             metadata,
@@ -215,7 +240,7 @@ fn run_case(line: &str, scratch: &std::path::Path) -> String {
                 trace.display(),
                 gate.display()
             ),
-            input: Resources::new(),
+            input: build_input,
             output: Resources::new(),
         }),
         "S" => Target::Service(ServiceTarget {
@@ -235,6 +260,7 @@ fn run_case(line: &str, scratch: &std::path::Path) -> String {
         let mut join = Some(join);
         let mut results: Vec<String> = Vec::new();
         let mut exited = false;
+        let bd_base = crate::zinoma_verif::build_results_handled();
         let probe_msg = |k: &str| ActorInputMessage::Requested {
             kind: if k == "B" {
                 ExecutionKind::Service
@@ -245,9 +271,11 @@ fn run_case(line: &str, scratch: &std::path::Path) -> String {
         };
         for ev in events {
             let (tok, hint) = ev.split_once('@').unwrap_or((ev, "0,0"));
-            let (nout, nstart) = hint.split_once(',').unwrap_or(("0", "0"));
-            let nout: usize = nout.parse().unwrap_or(0);
-            let nstart: usize = nstart.parse().unwrap_or(0);
+            let hv: Vec<&str> = hint.split(',').collect();
+            let nout: usize = hv.first().and_then(|x| x.parse().ok()).unwrap_or(0);
+            let nstart: usize = hv.get(1).and_then(|x| x.parse().ok()).unwrap_or(0);
+            // skip mode: cumulative number of build results (all `Skipped`) the actor must have handled after this event
+            let nbd: usize = hv.get(2).and_then(|x| x.parse().ok()).unwrap_or(0);
             let mut outs: Vec<String> = Vec::new();
             let mut notes: Vec<String> = Vec::new();
             if exited {
@@ -318,6 +346,12 @@ fn run_case(line: &str, scratch: &std::path::Path) -> String {
                 let t0 = Instant::now();
                 while obs.starts() < nstart && t0.elapsed() < WAIT {
                     task::sleep(Duration::from_millis(1)).await;
+                }
+                if skip_mode {
+                    let t0 = Instant::now();
+                    while (crate::zinoma_verif::build_results_handled() as usize) < (bd_base as usize) + nbd && t0.elapsed() < WAIT {
+                        task::sleep(Duration::from_millis(1)).await;
+                    }
                 }
                 // 3. synchronise
                 if kind == "G" {
